@@ -1,2 +1,126 @@
-"""Coded predicates for known_findings.json (see known.py)."""
-from known import predicate  # noqa: F401
+"""Coded predicates for known_findings.json (see known.py).
+
+A predicate receives (prop, sig, line, detail, profile) for an event the exact
+oracle has rejected and answers: is this *exactly* the listed finding?  It must
+be narrow: anything it does not recognise stays a VIOLATION.
+"""
+from known import predicate
+from common import lay, trunc_div
+
+
+# --------------------------------------------------------------------------
+# D10: the div_euclid family of the pinned tree derives every form from the
+# (overflowing) *plain* quotient: q0 = round_to_zero(a / b), then q0 -+ 1 when
+# the truncated remainder is negative, with from_num(+-1) as the increment.
+# That is what the crate's own doc-tests describe for the wrapped value, and
+# it deviates from "exact Euclidean quotient, overflow iff it does not fit"
+# (C07) whenever the plain quotient overflows or +-1 is not representable.
+# The model below reproduces that derivation bit for bit; an event is
+# attributed to D10 only if the observed token equals the model's prediction.
+
+def _rtz(L, X):
+    """round_to_zero on a raw (in-range) value"""
+    f = L.f
+    a = abs(X)
+    r = (a >> f) << f
+    return -r if X < 0 else r
+
+
+def _legacy_div_euclid(L, A, B, isint, profile):
+    """returns dict form-name -> predicted token (or None = no prediction)"""
+    f = L.f
+    Braw = (B << f) if isint else B
+    if Braw == 0:
+        return {}
+    if isint:
+        tq = trunc_div(A, B)           # raw bits divided by the integer
+    else:
+        tq = trunc_div(A << f, B)
+    o1 = not L.fits(tq)
+    q0 = _rtz(L, L.val(tq & L.mask))
+    t = A - Braw * trunc_div(A, Braw)  # truncated remainder (always fits)
+    neg = t < 0
+    pos_rhs = B > 0
+    inc = -1 if pos_rhs else 1
+    inc_raw = inc << f
+    inc_ok = L.fits(inc_raw)
+    sfx = "_int" if isint else ""
+    out = {}
+    # overflowing / wrapping
+    if not neg:
+        ov = (q0, o1)
+    elif not inc_ok:
+        ov = (q0, True)
+    else:
+        s = q0 + inc_raw
+        ov = (s, o1 or not L.fits(s))
+    out["overflowing_div_euclid" + sfx] = "O:%x:%d" % (ov[0] & L.mask, 1 if ov[1] else 0)
+    out["wrapping_div_euclid" + sfx] = "V:%x" % (ov[0] & L.mask)
+    # checked
+    if o1:
+        ck = None
+    elif not neg:
+        ck = q0
+    elif not inc_ok:
+        ck = None
+    else:
+        s = q0 + inc_raw
+        ck = s if L.fits(s) else None
+    out["checked_div_euclid" + sfx] = "N" if ck is None else "S:%x" % (ck & L.mask)
+    if not isint:
+        if ck is None:
+            sat = L.hi if ((A > 0) == (B > 0)) else L.lo
+        else:
+            sat = ck
+        out["saturating_div_euclid"] = "V:%x" % (sat & L.mask)
+    # plain: release wraps everything (from_num(1) wraps too); with checks on any
+    # internal overflow panics
+    if isint and A == L.lo and B == -1:
+        plain = "P"                     # primitive MIN / -1 panics in both profiles
+    else:
+        one_raw = L.val((1 << f) & L.mask)   # wrapping from_num(1)
+        anyov = o1
+        if neg:
+            anyov = anyov or not L.fits(1 << f)
+            s = q0 - one_raw if pos_rhs else q0 + one_raw
+            anyov = anyov or not L.fits(s)
+        else:
+            s = q0
+        # round_to_zero itself adds INT_LSB: can overflow for q0 near MAX? it operates on in-range
+        plain = "P" if (anyov and profile == "checked") else "V:%x" % (s & L.mask)
+    out["div_euclid" + sfx] = plain
+    return out
+
+
+@predicate("div_euclid_family_derived_from_plain_quotient")
+def _d10(prop, sig, line, detail, profile):
+    if prop not in ("C07", "C18", "C11"):
+        return False
+    toks = line.split()
+    op = toks[0]
+    if op not in ("rem", "rem_int"):
+        return False
+    parts = sig.split(":")
+    if len(parts) < 2:
+        return False
+    name = parts[1]
+    if "div_euclid" not in name:
+        return False
+    L = lay(toks[1])
+    if not L.signed:
+        return False
+    import rem as remmod
+    forms = remmod.FORMS[op]
+    idx = [i for i, fm in enumerate(forms) if fm[0] == name]
+    if not idx:
+        return False
+    outs = toks[5:]
+    obs = outs[idx[0]]
+    A = L.val(int(toks[2], 16))
+    B = L.val(int(toks[3], 16))
+    pred = _legacy_div_euclid(L, A, B, op == "rem_int", profile).get(name)
+    if pred is None:
+        return False
+    if pred == "P":
+        return obs[0] == "P"
+    return obs == pred
